@@ -64,7 +64,13 @@ def _pem_body(txt):
 
 
 def genuine_ok(ev):
-    return ev.get("cmd") == "verify" and ev.get("rc") == 0 and ev.get("verdict") == "OK" and not ev.get("fault")
+    """a verification the tool really performed and that succeeded UNDER THE KEY IT WAS GIVEN on the command line (key_used 'keyinfo' means
+    the signature verified under a key taken from the document's own KeyInfo - that vouches for nothing)"""
+    return ev.get("cmd") == "verify" and ev.get("rc") == 0 and ev.get("verdict") == "OK" and not ev.get("fault") and ev.get("key_used", "given") != "keyinfo"
+
+
+def ok_under_document_key(ev):
+    return ev.get("cmd") == "verify" and ev.get("rc") == 0 and ev.get("verdict") == "OK" and ev.get("key_used") == "keyinfo"
 
 
 def signature_structure_problems(doc, node_name, node_id, id_attr="ID"):
